@@ -83,6 +83,12 @@ def scripts(tier, seed, scale=1):
                 for tail in (["r dsp fini"], [], ["r dsp fini", "r dsp param 0", "r dsp fini"], ["r dsp fini", "r drop 0"]):
                     out.append(("dsp:%s:%d:%s:%s" % (pre, len(hd), "|".join(x[2:] for x in mid), "|".join(x[2:] for x in tail)),
                                 hd + ["r dsp param 0"] + mid + tail + ["r end"]))
+    # the array of references re-used as a raw buffer (mpt_array_reserve with no element type): smaller, equal, larger
+    for n in (2, 8, 40):
+        for ln in (0, 8, n * 8, n * 8 + 64, 4096):
+            for rel in ([], ["r ext 1 unref"], ["r ext 1 unref", "r ext 0 unref"]):
+                out.append(("arrraw:%d:%d:%d" % (n, ln, len(rel)), ["r begin", "r obj meta 1", "r obj meta 1", "r arr new %d" % n] + rel +
+                            ["r arr raw %d" % ln, "r arr new 3", "r arr raw 8", "r end"]))
     depth = 3 if tier == "quick" else 4
     # exhaustive histories per kind
     for kind in ("meta", "buf"):
